@@ -18,7 +18,9 @@ def main():
         for s in steps:
             if t == 'quick' and fam == 0 and s == 3:
                 continue
-            jobs.append(Job(P + 'VerifC04Converge', (fam, s), cfg=cfg, max_paths=300000))
+            jobs.append(Job(P + 'VerifC04Converge', (fam, s, 0), cfg=cfg, max_paths=300000))
+            if s <= (2 if t == 'quick' else 3):
+                jobs.append(Job(P + 'VerifC04Converge', (fam, s, 1), cfg=cfg, max_paths=300000))
     jobs.append(Job(P + 'VerifC04Witness', (), witness=True, cfg=cfg))
     res = chk.run_jobs(jobs)
     finish(chk, res, t,
@@ -28,7 +30,7 @@ def main():
                        'deterministic ipfs-log order). Checked: equal observations on both replicas, latest-event-per-subject wins against a '
                        'reference fold, idempotence of re-indexing.',
            bounds={'history_length': list(steps), 'families': 'contact lifecycle / request switch+seed / group join-leave', 'arrival_orders': 'all permutations',
-                   'outside': 'go-ipfs-log / go-orbit-db replication, heads exchange and reopen themselves (they appear only through the two accessors of the log contract); causally unordered concurrent writes'},
+                   'outside': 'go-ipfs-log / go-orbit-db replication, heads exchange and reopen themselves (they appear only through the two accessors of the log contract); causally unordered concurrent writes other than through partial views'},
            assumptions=['log contract: Values() is a function of the entry set extending causal order; GetEntries() is arrival order (confirmed on go-ipfs-log: Join inserts a batch in BFS-from-heads order)'],
            trusted=['go/ssa lowering', 'wesym interpreter + contracts', 'z3 5.1.0 (+cross-check)'])
 
